@@ -403,6 +403,8 @@ def snot(a):
 
 def sinvert(a):
     if not isinstance(a, Sym):
+        if isinstance(a, (bool, np.bool_)):
+            return not a
         return ~a
     return snot(a) if a.k == 'b' else Sym(~a.t, a.k)
 
